@@ -75,7 +75,7 @@ def ops(vals=VALS):
         for v in VALS:
             out.append(('cset', k, v))
             out.append(('aset', k, v))
-        out += [('cdel', k), ('cpop', k), ('adel', k), ('dumpk', k), ('loadk', k)]
+        out += [('cdel', k), ('cpop', k), ('adel', k), ('dumpk', k), ('loadk', k), ('asetdefault', k, VALS[0])]
     out += [('cupdate', (('k1', VALS[1]), ('k2', VALS[0]))), ('cclear',), ('dump',), ('load',), ('dumpk', 'k1', 'k2'), ('loadk', 'k2', 'absent'),
             # multi-key forms with the absent key first (a key the other side lacks must be skipped, not end the call)
             ('loadk', 'absent', 'k2'), ('loadk', 'k1', 'k2'), ('dumpk', 'absent', 'k1'), ('dumpk', 'k2', 'k1'),
@@ -131,6 +131,13 @@ def apply(S, op):
             if not S.null:
                 S.mA[op[1]] = op[2]
             S.A[op[1]] = op[2]
+        elif k == 'asetdefault':
+            # setdefault directly on the archive (a null archive stays empty and answers with the default)
+            if not S.null:
+                want_ret = S.mA.setdefault(op[1], op[2])
+            else:
+                want_ret = op[2]
+            ret = S.A.setdefault(op[1], op[2])
         elif k == 'bset':
             S.mB[op[1]] = op[2]
             S.B[op[1]] = op[2]
